@@ -131,6 +131,26 @@ impl<'a> Context<'a> {
         return_value
     }
 
+    /// Set the access flags for parameters accessed by a jump without outgoing edge in the control flow graph,
+    /// i.e. indirect jumps and calls without known targets and calls without a return target.
+    /// Since no transition function is evaluated for such jumps,
+    /// their parameter accesses have to be added when extracting the function signatures.
+    pub fn set_access_flags_for_dead_end_jump(&self, state: &mut State, jump: &Term<Jmp>) {
+        match &jump.term {
+            Jmp::BranchInd(expression)
+            | Jmp::Return(expression)
+            | Jmp::CallInd {
+                target: expression, ..
+            } => state.set_read_flag_for_input_ids_of_expression(expression),
+            Jmp::Call { target, .. } => {
+                if let Some(extern_symbol) = self.project.program.term.extern_symbols.get(target) {
+                    self.handle_extern_symbol_call(state, extern_symbol, &jump.tid);
+                }
+            }
+            Jmp::Branch(_) | Jmp::CBranch { .. } | Jmp::CallOther { .. } => (),
+        }
+    }
+
     /// Handle a call to a specific extern symbol.
     /// If function stubs exist for the symbol, then these are used to compute the effect of the call.
     /// Else the [generic symbol handler](State::handle_generic_extern_symbol) is called.
